@@ -922,6 +922,7 @@ def _split_top_commas(inner):
 def desugar_collect_chains(text, log, relfile, line):
     """Rule N10 (opt-in): `SRC ADAPT .collect()` becomes an explicit loop, where
          SRC   = X.iter() | X.into_iter() | X.iter().zip(Y)        (zip -> `vx_zip(X, Y)`, a stub carrying Iterator::zip's contract)
+                 optionally followed by .enumerate() (a counter) and one .filter(|p| F) (side-effect free)
          ADAPT = .map(|p| E) | .filter_map(|p| O.map(|q| E))
        and the collection is chosen from the syntax: a `let NAME: ..HashMap<..> = CHAIN;` collects pairs with insert
        (later pairs overwrite earlier ones, as FromIterator for HashMap does); an element `Ok(E)` with no other
@@ -941,6 +942,17 @@ def desugar_collect_chains(text, log, relfile, line):
                 zc = match_close(toks, j + 2)
                 zipped = text[toks[j + 2].end:toks[zc].start].strip()
                 j = zc + 1
+            enum = False
+            if j + 3 < n and [x.text for x in toks[j:j + 4]] == [".", "enumerate", "(", ")"]:
+                enum = True
+                j += 4
+            filt = None
+            if j + 3 < n and toks[j].text == "." and toks[j + 1].text == "filter" and toks[j + 2].text == "(" and toks[j + 3].text == "|":
+                fpat, fbody, fc = _closure_parts(toks, text, j + 2)
+                if SIDE_EFFECT_RE.search(fbody):
+                    continue
+                filt = (fpat, fbody)
+                j = fc + 1
             if not (j + 2 < n and toks[j].text == "." and toks[j + 1].text in ("map", "filter_map") and toks[j + 2].text == "("):
                 continue
             kind = toks[j + 1].text
@@ -956,11 +968,11 @@ def desugar_collect_chains(text, log, relfile, line):
             if not (e + 1 < n and toks[e].text == "(" and toks[e + 1].text == ")"):
                 continue
             rs = _recv_start(toks, i - 1)
-            cand = (rs, e + 1, i, kind, zipped, pat, body)
+            cand = (rs, e + 1, i, kind, zipped, pat, body, enum, filt)
             break
         if cand is None:
             return text
-        rs, ce, ii, kind, zipped, pat, body = cand
+        rs, ce, ii, kind, zipped, pat, body, enum, filt = cand
         # No side-effect restriction here (unlike N6): map / filter_map followed by collect() call the closure exactly
         # once per element, in order, with no short-circuit (the Ok(..) form has no Err element), which is what the loop does.
         recv = text[toks[rs].start:toks[ii - 1].start].strip()
@@ -974,7 +986,9 @@ def desugar_collect_chains(text, log, relfile, line):
         item = "__i%d" % k
         coll = "__c%d" % k
         elem = _strip_block(body)
-        pre = _bind(pat, item, False)
+        # what the adapters see: the element, or (position, element) after .enumerate()
+        seen = "__t%d" % k if enum else item
+        pre = _bind(pat, seen, False)
         opt_recv = None
         if kind == "filter_map":
             et = code_toks(tokenize(elem))
@@ -1010,7 +1024,13 @@ def desugar_collect_chains(text, log, relfile, line):
         else:
             src_it = "%s.%s()" % (recv, "iter" if by_iter else "into_iter") if by_iter else recv
         fin = ("Ok(%s)" % coll) if ok_inner is not None else coll
-        repl = "{\n%s\nfor %s in %s {\n%s\n%s\n}\n%s\n}" % (init, item, src_it, pre, inner, fin)
+        body_txt = "%s\n%s" % (pre, inner)
+        if filt is not None:
+            body_txt = "if { %s%s } {\n%s\n}" % (_bind(filt[0], seen, True), filt[1], body_txt)
+        if enum:
+            init += "\nlet mut __n%d: usize = 0;" % k
+            body_txt = "let __t%d = (__n%d, %s);\n%s\n__n%d += 1;" % (k, k, item, body_txt, k)
+        repl = "{\n%s\nfor %s in %s {\n%s\n}\n%s\n}" % (init, item, src_it, body_txt, fin)
         s0, e0 = toks[rs].start, toks[ce].end
         log.append(dict(rule="N10", file=relfile, line=line, before=re.sub(r"\s+", " ", text[s0:e0])[:200], after=re.sub(r"\s+", " ", repl)[:200]))
         text = text[:s0] + repl + text[e0:]
